@@ -11,9 +11,10 @@ namespace PebblesVerif
     owned by service `A`; the client selects any non-empty list `fs` of distinct leaf fields of
     `T`, each owned by `A` or by `B`, in any order and interleaving (`Flat.Fam` states exactly
     this about the merged schema and the type-URL map; no bound on the number of fields or on the
-    data). For every data set in which `q` refers to an entity `e` of type `T` (ids free of `#`,
-    the path separator — cf. `C01_point_hash_breaks`), with every service answering its
-    sub-requests as the reference evaluator does over its OWN schema:
+    data). For every data set in which `q` refers to an entity `e` of type `T` (its id an arbitrary
+    non-empty string: it may contain `#`, the path separator — the point is cut at the FIRST `#`,
+    cf. `C01_point_hash_in_id`), with every service answering its sub-requests as the reference
+    evaluator does over its OWN schema:
 
     `Model.gateway` — sanitise (adds the helper `id`), plan (root step at `A`, one child step
     `node(id: $id)` at `B` when some field is `B`'s), execute depth by depth (insertion point
@@ -27,8 +28,7 @@ namespace PebblesVerif
     satisfying every hypothesis: `C01_flat_one_hop_instance`. -/
 theorem C01_flat_one_hop {c : PCtx} {A B T q : String} {fs : List Flat.FieldSpec} (h : Flat.Fam c A B T q fs)
     (svcs : List Exec.Svc) (SA SB : Schema) (D : Spec.Data) (e : Spec.Entity) (r : List (String × J))
-    (hq1 : '#' ∉ q.toList) (hq2 : ':' ∉ q.toList) (hqne : q ≠ "")
-    (hi : '#' ∉ e.id.toList) (hine : e.id ≠ "")
+    (hq1 : '#' ∉ q.toList) (hq2 : ':' ∉ q.toList) (hqne : q ≠ "") (hine : e.id ≠ "")
     (hnne : ∀ n ∈ Flat.namesOf fs, n ≠ "")
     (hsA : svcs.find? (·.url == A) = some ⟨A, SA⟩) (hsB : svcs.find? (·.url == B) = some ⟨B, SB⟩)
     (hSB : ∃ td, SB.type? T = some td ∧ td.kind = .object)
@@ -36,7 +36,7 @@ theorem C01_flat_one_hop {c : PCtx} {A B T q : String} {fs : List Flat.FieldSpec
     (href : Spec.eval c.schema D ⟨.query, "", [], [Flat.Q T q fs]⟩ [] = some (.obj [(q, .obj r)])) :
     ∃ d calls, Exec.gateway c {} ⟨.query, "", [], [Flat.Q T q fs]⟩ none (Exec.specDownstream svcs D)
         = .ok ⟨some [(q, .obj d)], [], calls⟩ ∧ d.Perm r :=
-  Flat.flat_one_hop h svcs SA SB D e r hq1 hq2 hqne hi hine hnne hsA hsB hSB hroot hent hty href
+  Flat.flat_one_hop h svcs SA SB D e r hq1 hq2 hqne hine hnne hsA hsB hSB hroot hent hty href
 
 /-- non-vacuity: a concrete two-service federation (three fields, split A/B/A) meets every
     hypothesis of `C01_flat_one_hop` -/
